@@ -48,6 +48,10 @@ type Case struct {
 	// "answer" = the validator still answers with its scripted vector a little later,
 	// "ctxerr" = the context-aware validator answers with the context's error
 	Cancel string `json:"cancel,omitempty"`
+	// Validity: "expired-nonleaf" = a certificate behind the leaf (the intermediate; the root of a
+	// two-certificate chain) was valid at the signing time but has expired by now, and the level
+	// only logs the authentic-timestamp validation: the revocation check still sees the whole chain
+	Validity string `json:"validity,omitempty"`
 }
 
 var (
@@ -63,6 +67,12 @@ func chainOf(n int, subjects string) *pki.Chain {
 		for n := 2; n <= 4; n++ {
 			chains[fmt.Sprint(n)] = pki.NewChain(pki.ChainOpts{Intermediates: n - 2, Name: fmt.Sprintf("c05 len%d", n)})
 			chains[fmt.Sprint(n, "empty-leaf")] = pki.NewChain(pki.ChainOpts{Intermediates: n - 2, Name: fmt.Sprintf("c05 len%d e", n), LeafRaw: pkixEmpty})
+			pos := 1
+			if n == 2 {
+				pos = 1 // the root
+			}
+			chains[fmt.Sprint(n, "expired-nonleaf")] = pki.NewChain(pki.ChainOpts{Intermediates: n - 2, Name: fmt.Sprintf("c05 len%d x", n),
+				Windows: map[int][2]time.Time{pos: {now.Add(-72 * time.Hour), now.Add(-5 * time.Minute)}}})
 		}
 	})
 	if n == 1 {
@@ -98,7 +108,11 @@ func decorate(sel int) func(i int, r *result.CertRevocationResult) {
 
 func check(c Case) (string, string) {
 	n := len(c.Vector)
-	ch := chainOf(n, c.Subjects)
+	variant := c.Subjects
+	if c.Validity != "" && n > 1 {
+		variant = c.Validity
+	}
+	ch := chainOf(n, variant)
 	now := time.Now()
 	signingTime := now.Add(-time.Hour).Truncate(time.Second)
 	scheme, storeType := envb.SchemeX509, "ca"
@@ -121,6 +135,9 @@ func check(c Case) (string, string) {
 		rev.ErrWithResults = c.ErrWithR
 	}
 	target := map[string]string{"authenticity": "enforce", "authenticTimestamp": "enforce", "expiry": "enforce", "revocation": c.Action}
+	if variant == "expired-nonleaf" {
+		target["authenticTimestamp"] = "log"
+	}
 	level := kit.LevelFor(c.Base, target, false)
 	ts := mocks.NewTrustStore().Put(storeType, "x", ch.Root().Cert)
 	opts := kit.Options()
@@ -161,7 +178,7 @@ func check(c Case) (string, string) {
 		if r.Type == "revocation" {
 			revRes = r
 			nRev++
-		} else if r.Error != nil {
+		} else if r.Error != nil && !(variant == "expired-nonleaf" && r.Type == "authenticTimestamp") {
 			return "harness", fmt.Sprintf("validation %s failed unexpectedly: %v", r.Type, r.Error)
 		}
 	}
@@ -304,7 +321,10 @@ func record(rec *stats.Recorder, c Case) {
 	if c.Cancel != "" {
 		cl = append(cl, "context-cancelled-during-check", "cancel="+c.Cancel)
 	}
-	rec.Case(cl, nt, stats.Fingerprint(c.Subjects, c.Cancel, fmt.Sprint(c.Vector), fmt.Sprint(c.Warm), fmt.Sprint(c.Decor), c.ValErr, c.ErrWithR, c.Iface, c.Action, c.Base, c.Scheme, c.Format), func() any { return c })
+	if c.Validity != "" && len(c.Vector) > 1 {
+		cl = append(cl, "validity="+c.Validity)
+	}
+	rec.Case(cl, nt, stats.Fingerprint(c.Subjects, c.Cancel, c.Validity, fmt.Sprint(c.Vector), fmt.Sprint(c.Warm), fmt.Sprint(c.Decor), c.ValErr, c.ErrWithR, c.Iface, c.Action, c.Base, c.Scheme, c.Format), func() any { return c })
 }
 
 func evaluate(t stats.Failer, rec *stats.Recorder, c Case) {
@@ -354,6 +374,9 @@ func TestC05_Vectors(t *testing.T) {
 								}
 							}
 						}
+						if n > 1 { // the same vector on a chain with an expired certificate behind the leaf (authentic timestamp only logged)
+							evaluate(t, rec, Case{Vector: vec, Iface: iface, Action: action, Base: bases[(code+ai+1)%3], Scheme: []string{"x509", "sa"}[(code+1)%2], Format: envb.Formats[(code/2+1)%2], Validity: "expired-nonleaf"})
+						}
 						if n > 1 { // the same vector on a chain whose signing certificate has an empty subject
 							evaluate(t, rec, Case{Vector: vec, Iface: iface, Action: action, Base: bases[(code+ai+2)%3], Scheme: []string{"x509", "sa"}[code%2], Format: envb.Formats[(code/2)%2], Subjects: "empty-leaf"})
 						}
@@ -391,6 +414,9 @@ func TestC05_Decorated(t *testing.T) {
 			}
 		}
 		c.Subjects = rp.Pick(rt, "subjects", "", "", "", "empty-leaf")
+		if c.Subjects == "" {
+			c.Validity = rp.Pick(rt, "validity", "", "", "", "expired-nonleaf")
+		}
 		if rapid.IntRange(0, 11).Draw(rt, "cancel") == 0 {
 			c.Cancel = rp.Pick(rt, "cancelKind", "answer", "ctxerr")
 		}
